@@ -99,6 +99,7 @@ def _visit_tree_override(run, self, tree):
         run.ghost.setdefault("visited", []).append(tree)
         r = attrs["$result"]
         if callable(r) and not isinstance(r, se.SV):
+            run.ghost["visiting_evaluator"] = self
             return r(run)           # a fresh arbitrary outcome at every visit (macro bodies)
         return r
     return run.call_ast(run.engine.vfunc_of(lark.visitors.Interpreter._visit_tree), [self, tree], {})
